@@ -449,6 +449,55 @@ pub fn run(a: &Args) {
             }
         }
     }
+    if prop == "C09" {
+        // raw constructors (requests and responses) followed by further additions in varying order
+        let adds: [(&str, u8); 6] = [("status-message", 1), ("job-id", 1), ("detailed-status-message", 1), ("job-state", 2), ("printer-state", 4), ("requesting-user-name", 1)];
+        for k in 0..48usize {
+            let mut counts: HashMap<Vec<String>, (u8, u64)> = HashMap::new();
+            for _inst in 0..instances {
+                let mut req = if k % 2 == 0 {
+                    IppRequestResponse::new_response(IppVersion::v1_1(), StatusCode::SuccessfulOk, k as u32)
+                } else {
+                    IppRequestResponse::new(IppVersion::v2_0(), Operation::GetJobAttributes, if k % 4 == 1 { Some(TARGETS[k % TARGETS.len()].parse().unwrap()) } else { None })
+                };
+                // a rotation of the additions, so that every one is sometimes first / last
+                for j in 0..(1 + k % adds.len()) {
+                    let (name, tag) = adds[(k + j * 5) % adds.len()];
+                    let v = if name == "job-id" { IppValue::Integer(9) } else if name.ends_with("state") { IppValue::Enum(3) } else { IppValue::TextWithoutLanguage(format!("t{}", j)) };
+                    req.attributes_mut().add(DelimiterTag::from_u8(tag).unwrap(), IppAttribute::new(name, v));
+                }
+                let bytes = req.to_bytes();
+                let tz = tokenize(&bytes);
+                let mut first = 0u8;
+                let mut names = vec![];
+                let mut groups = 0;
+                let mut cur = 0u8;
+                for t in &tz.toks {
+                    match t {
+                        Tok::Delim(d) => {
+                            groups += 1;
+                            cur = *d;
+                            if groups == 1 {
+                                first = *d;
+                            }
+                        }
+                        Tok::Val(w) if groups == 1 && !w.name.is_empty() => names.push(hexs(&w.name)),
+                        Tok::Val(w) if groups > 1 && cur == 1 && [&b"printer-uri"[..], b"job-uri", b"job-id"].contains(&&w.name[..]) => names.push(format!("LATER:{}", hexs(&w.name))),
+                        _ => {}
+                    }
+                }
+                counts.entry(names).or_insert((first, 0)).1 += 1;
+                n += 1;
+            }
+            for (names, (first, cnt)) in counts {
+                orders_seen.insert((100000 + k, names.clone()));
+                sink.emit(
+                    &json!({"ev": "order", "op": if k % 2 == 0 { "response" } else { "raw-request" }, "first": first, "names": names, "instances": cnt}),
+                    &json!({"construction": k, "order": names.iter().map(|h| if h.starts_with("LATER:") { h.clone() } else { unhexs(h) }).collect::<Vec<_>>()}),
+                );
+            }
+        }
+    }
     if prop == "C10" {
         // the two raw constructors
         let mut r = Rng::new(seed ^ 0xabcdef);
